@@ -15,6 +15,9 @@ var redirectTable = map[string]string{
 	"(*bufio.Scanner).Scan":                   "ModelScannerScan",
 	"(*bufio.Scanner).Text":                   "ModelScannerText",
 	"(*bufio.Scanner).Err":                    "ModelScannerErr",
+	"github.com/jhillyerd/enmime/v2.DecodeHeaders":   "ModelEnmimeDecodeHeaders",
+	"github.com/jhillyerd/enmime/v2.ParseAddressList": "ModelEnmimeParseAddressList",
+	"(net/textproto.MIMEHeader).Get":                  "ModelMIMEHeaderGet",
 	"fmt.Fprint":                              "ModelFprint",
 	"sort.Slice":                              "ModelSortSlice",
 	"github.com/kelseyhightower/envconfig.Process": "ModelEnvconfigProcess",
